@@ -5,6 +5,9 @@
 // Cells are numbered in order of creation on both sides.  The user protocol of KPIECE's Discretization is
 // followed: createCell only for an absent coordinate, data set, then add; remove only for a present cell,
 // then destroyCell; data changes only right before update()/updateAll() or inside the update event.
+// Split protocol (round 10): `create` = createCell(x, &nbh) + data WITHOUT add (one such cell at a time), `addc` =
+// add(pending), `abandon` = remove(pending) (its bool) + destroyCell(pending); while a cell is pending `new`, `rm`,
+// `rmtop*`, `clear` answer `busy` (they would leave the pending cell's own counter stale).
 #include "common/proto.h"
 #include <Eigen/Core>
 #include <algorithm>
@@ -69,6 +72,8 @@ static std::string joinC(const std::vector<std::string> &v)
     return s;
 }
 
+static Cell *g_pending = nullptr;
+
 static std::string dump(G &g, unsigned dim)
 {
     std::vector<Cell *> cells;
@@ -123,6 +128,16 @@ static std::string dump(G &g, unsigned dim)
             cs += (j ? "," : "") + std::to_string(canon[i][j]);
     }
     s += " | sizes=" + joinC(sizes) + " comps=" + (canon.empty() ? std::string("-") : cs);
+    if (g_pending)
+    {
+        std::vector<std::string> xs;
+        for (unsigned i = 0; i < dim; ++i)
+            xs.push_back(std::to_string(g_pending->coord[i]));
+        s += " | P=" + idStr(g_pending) + ":" + joinC(xs) + ":" + std::to_string(g_pending->neighbors) + ":" +
+             (g_pending->border ? "1" : "0") + ":" + std::to_string(g_pending->data);
+    }
+    else
+        s += " | P=-";
     return s;
 }
 
@@ -234,6 +249,7 @@ int main()
         {
             if (!coordAt(t, i, dim, x) || i + 1 != t.size() || !vp::parseInt(t[i])) { std::cout << "bad-op\n"; continue; }
             long long d = *vp::parseInt(t[i]);
+            if (g_pending) { fin("busy"); continue; }
             if (grid.has(x)) { fin("present"); continue; }
             Cell *c = grid.createCell(x);
             idOf[c] = nextId++;
@@ -244,6 +260,7 @@ int main()
         else if (op == "rm")
         {
             if (!coordAt(t, i, dim, x) || i != t.size()) { std::cout << "bad-op\n"; continue; }
+            if (g_pending) { fin("busy"); continue; }
             Cell *c = grid.getCell(x);
             if (!c) { fin("absent"); continue; }
             bool r = grid.remove(c);
@@ -315,6 +332,7 @@ int main()
         }
         else if ((op == "rmtopi" || op == "rmtope") && t.size() == 1)
         {
+            if (g_pending) { fin("busy"); continue; }
             if (grid.size() == 0) { fin("none"); continue; }
             Cell *c = op == "rmtopi" ? grid.topInternal() : grid.topExternal();
             if (!c) { fin("none"); continue; }
@@ -324,14 +342,54 @@ int main()
             grid.destroyCell(c);
             fin("c=" + id);
         }
+        else if (op == "create")
+        {
+            if (!coordAt(t, i, dim, x) || i + 1 != t.size() || !vp::parseInt(t[i])) { std::cout << "bad-op\n"; continue; }
+            long long d = *vp::parseInt(t[i]);
+            if (g_pending) { fin("busy"); continue; }
+            if (grid.has(x)) { fin("present"); continue; }
+            G::CellArray nbh;
+            Cell *c = grid.createCell(x, &nbh);   // the overload that hands the future neighbours back
+            idOf[c] = nextId++;
+            c->data = (int)d;
+            g_pending = c;
+            std::vector<std::string> ns;
+            for (Cell *n : nbh)
+                ns.push_back(idStr(n));
+            fin("c=" + idStr(c) + " nbh=" + joinC(ns));
+        }
+        else if (op == "addc" && t.size() == 1)
+        {
+            if (!g_pending) { fin("nopending"); continue; }
+            Cell *c = g_pending;
+            g_pending = nullptr;
+            grid.add(c);
+            fin("ok");
+        }
+        else if (op == "abandon" && t.size() == 1)
+        {
+            if (!g_pending) { fin("nopending"); continue; }
+            Cell *c = g_pending;
+            g_pending = nullptr;
+            bool r = grid.remove(c);   // "If the cell has not been added to the grid, only update the neighbor list"
+            idOf.erase(c);
+            grid.destroyCell(c);
+            fin(r ? "true" : "false");
+        }
         else if (op == "clear" && t.size() == 1)
         {
+            if (g_pending) { fin("busy"); continue; }
             grid.clear();
             idOf.clear();
             fin("ok");
         }
         else
             std::cout << "bad-op\n";
+    }
+    if (g_pending)   // end of script inside the window: give the cell back (no output)
+    {
+        grid.remove(g_pending);
+        grid.destroyCell(g_pending);
     }
     return 0;
 }
